@@ -335,6 +335,40 @@ func TestC06(t *testing.T) {
 		}
 	}
 
+	// (2b) pacing with slow sends: scripted driver whose SendProbe calls take scripted (sometimes long)
+	// durations; consecutive emissions must still be at least the configured delay apart and in order
+	for i := 0; i < env.Scale(400, 8000); i++ {
+		eng := []string{"par", "ser"}[i%2]
+		c := engCase{Engine: eng, Parallel: true, SendErrAt: -1, Min: rng.Range(1, 3), Timeout: time.Duration(rng.Range(50, 400)) * time.Millisecond,
+			Delay: time.Duration(rng.Range(1, 60)) * time.Millisecond, Poll: 20 * time.Millisecond}
+		c.Max = c.Min + rng.Range(1, 8)
+		for k := 0; k <= c.Max-c.Min; k++ {
+			d := time.Duration(0)
+			switch rng.Intn(4) {
+			case 0:
+				d = c.Delay*time.Duration(rng.Range(1, 4)) + time.Duration(rng.Range(1, 999))*time.Microsecond // slower than the delay
+			case 1:
+				d = time.Duration(rng.Range(1, 900)) * time.Microsecond
+			}
+			c.SendDurs = append(c.SendDurs, d)
+		}
+		o := runEngineCase(t, c)
+		bad := ""
+		for k := range o.Sends {
+			if int(o.Sends[k]) != c.Min+k {
+				bad = fmt.Sprintf("probe #%d has TTL %d, expected %d", k, o.Sends[k], c.Min+k)
+			}
+			if k > 0 && o.SendAt[k]-o.SendAt[k-1] < c.Delay {
+				bad = fmt.Sprintf("probes for TTL %d and %d were emitted %s apart, less than the configured delay %s (SendProbe durations %v)", o.Sends[k-1], o.Sends[k], o.SendAt[k]-o.SendAt[k-1], c.Delay, c.SendDurs)
+			}
+		}
+		rep.Case("pacing/"+eng, fmt.Sprintf("%d|%d|%v|%v", c.Min, c.Max, c.Delay, c.SendDurs), true, nil)
+		if bad != "" {
+			rep.Violate(hx.Violation{Kind: "spec", What: "emission discipline violated: " + bad, Sig: map[string]string{"stream": "pacing", "engine": eng},
+				Replay: map[string]any{"engine": eng, "min": c.Min, "max": c.Max, "delay": c.Delay.String(), "send_durations": fmt.Sprint(c.SendDurs), "send_at": fmt.Sprint(o.SendAt)}})
+		}
+	}
+
 	// (3) endpoints reported = endpoints on the wire ----------------------------------------------
 	c06Endpoints(t, rep, rng, env)
 
